@@ -55,8 +55,8 @@ def hexStr (b : Bytes) : String := String.ofList (hexChars b)
 structure Group where
   /-- `group.ID` -/
   gid : Id
-  /-- `chain.NewChainInfo(group).HashString()` -/
-  hash : Key
+  /-- `chain.NewChainInfo(group).Hash()`; the table key is `HashString()` = `hexStr hash` -/
+  hash : Bytes
   deriving DecidableEq, Repr
 
 structure Proc where
@@ -157,7 +157,7 @@ def addBeaconHandler (s : State) (beaconID : Id) (own : Id) (bp : Proc) : State 
   match bp.group with
   | none => s
   | some g =>
-    let chainHash := g.hash
+    let chainHash := hexStr g.hash
     let bh : Ref := ⟨own, bp.gen⟩
     let s := { s with http := aset chainHash bh s.http }
     let s := { s with hashes := aset chainHash beaconID s.hashes }
@@ -171,13 +171,13 @@ def removeBeaconHandler (s : State) (beaconID : Id) (bp : Proc) : State :=
   match bp.group with
   | none => s
   | some g =>
-    let s := { s with http := adel g.hash s.http }
+    let s := { s with http := adel (hexStr g.hash) s.http }
     if isDefaultBeaconID beaconID then { s with http := adel defaultChainHash s.http } else s
 
 /-- `RemoveBeaconProcess(ctx, beaconID, bp)` -/
 def removeBeaconProcess (s : State) (beaconID : Id) (bp : Proc) : State :=
   let beaconID := canon beaconID
-  let chainHash := match bp.group with | some g => g.hash | none => ""
+  let chainHash := match bp.group with | some g => hexStr g.hash | none => ""
   let s := { s with procs := adel beaconID s.procs }
   let s := { s with hashes := adel chainHash s.hashes }
   if isDefaultBeaconID beaconID then { s with hashes := adel defaultChainHash s.hashes } else s
@@ -215,6 +215,11 @@ def loadBeacon (s : State) (md : Option Req) : State × Except RErr Unit :=
     | .ok _ => (s, .error .alreadyRunning)
     | .error _ => loadBeaconFromStore s beaconID
 
+/-- `key.NewFileStores`: one store per beacon folder; the default store is created when there is none -/
+def bootStores (s : State) : List Id :=
+  let stores := s.disk.map (·.1)
+  if stores.isEmpty then [defaultBeaconID] else stores
+
 def loadEach (single : Bool) (name : Id) : State → List Id → State × Except RErr Unit
   | s, [] => (s, .ok ())
   | s, beaconID :: rest =>
@@ -228,11 +233,7 @@ def loadEach (single : Bool) (name : Id) : State → List Id → State × Except
 (the orders agree whenever no store fails to load, which is what the generator produces). -/
 def loadBeaconsFromDisk (s : State) (single : Bool) (name : Id) : State × Except RErr Unit :=
   if single && name == "" then (s, .ok ())
-  else
-    let stores := s.disk.map (·.1)
-    -- key.NewFileStores creates the default store when there is none
-    let stores := if stores.isEmpty then [defaultBeaconID] else stores
-    loadEach single name s stores
+  else loadEach single name s (bootStores s)
 
 /-- control `Shutdown` with a non-empty beacon id in the metadata (an empty one stops the whole daemon) -/
 def shutdown (s : State) (md : Option Req) : State × Except RErr Unit :=
